@@ -110,5 +110,29 @@ CHECKS["C18"] = {
     "note": "Trusted: vf/ref.py tables. Repeated labels with non-idempotent substituted values are counted ambiguous and not judged. Symbolic/float classes with tolerance 1e-9*scale.",
     "technique": _T_TT,
 }
+CHECKS["C08"] = {
+    "text": "Generated README pipelines on PCBO and PCSO: objective, a witness drawn first, 1-3 comparison / logical constraints constructed to hold at the witness (feasible by construction), weights (max f - min f) + delta from the reference table, log_trick per constraint, then solve_bruteforce (single/all, also with weak weights), the model as unconstrained problem and to_pubo/to_puso/to_qubo/to_quso with the default penalty. An independent constrained enumeration gives F*; every arg-min of every form's complete truth table must convert (convert_solution with matching spin flag) to a feasible assignment with f == F* and the table minimum must equal F*; remove_ancilla_from_solution must return exactly the non-ancilla part.",
+    "design_ref": "DESIGN.md section 4, C08",
+    "note": "Trusted: vf/ref.py tables and reference relation semantics. Forms with > 18 variables counted too_big; at most 256 arg-min rows converted per form. No shrink phase in the quick tier.",
+    "technique": "property-based testing: Hypothesis-generated end-to-end pipelines (feasible by construction) with an independent constrained-enumeration oracle over complete truth tables",
+}
+CHECKS["C09"] = {
+    "text": "Generated (model, solver, all_solutions, valid) cases over raw dicts and all ten model types, the four solve_*_bruteforce functions and the solve_bruteforce methods (PCBO/PCSO with their own constraints), validity predicates from generated subsets of the assignments; an independent enumeration gives the minimum over valid assignments and the exact arg-min set: objective equal (None if nothing valid), solution over exactly the model's variables, valid and optimal; all_solutions returns every minimiser exactly once and nothing else; empty/constant conventions; model unchanged. Also Problem.solve_bruteforce on two problem classes.",
+    "design_ref": "DESIGN.md section 4, C09",
+    "note": "Trusted: vf/ref.py enumeration; exact arithmetic (integers / dyadics). Models with > 10 variables skipped (counted).",
+    "technique": "property-based testing: Hypothesis-generated models and validity predicates with an independent exhaustive-enumeration oracle (exact arg-min set comparison)",
+}
+CHECKS["C16"] = {
+    "text": "Generated symbolic-vs-numeric builds: PCBO/PCSO models with 1-3 constraint calls (6 comparison methods, 16 logical methods, log_trick, bounds modes) whose weights are sympy Symbols, and PUBO/PUSO reductions (to_qubo/to_quso/to_pubo(d)/to_puso(d)) with lam = Symbol or a symbolic callable; build(symbols).subs(values) must equal build(values) in type, keys, coefficients and recorded constraints, with values chosen dyadic, non-dyadic and solved so that a coefficient cancels; subs must not mutate the symbolic model.",
+    "design_ref": "DESIGN.md section 4, C16",
+    "note": "Trusted: sympy substitution as part of the code under test's contract; exact comparison for dyadic values, tolerance 1e-9*(sum|coef|) otherwise. variables/mapping/num_ancillas are not compared (not in the statement).",
+    "technique": "property-based testing: Hypothesis-generated builds with a commuting-diagram (metamorphic) oracle build(sym).subs(c) == build(c)",
+}
+CHECKS["C19"] = {
+    "text": "Three generated families: (a) create_from_info(get_info(M)) round trip for all ten types with names, set_mapping bijections, stale labels and 0-3 constraints (type, terms, name, mapping, ancilla count, constraints, get_info equality); (b) aliasing: copy(), copy constructors, mapping, reverse_mapping, variables, constraints (and nested polynomials), get_info - a generated mutation of one side must leave the other side's deep snapshot unchanged; (c) argument immutability over a catalogue of 126 library entry points (all constraint methods, sat gates, conversions, to_*, value functions, solvers, extrema, subgraph/subvalue/normalize, info, the four annealers, anneal_temperature_range, arithmetic) with deep snapshots of every argument before/after and after mutating the returned object.",
+    "design_ref": "DESIGN.md section 4, C19",
+    "note": "Trusted: gen.snapshot deep comparison (dict order not part of equality). Annealer calls kept tiny; plain build of the extension.",
+    "technique": "property-based testing: Hypothesis-generated models, mutations and API calls with snapshot-equality (round-trip and non-interference) oracles",
+}
 for e in ENGINES:
     e["serves_properties"] = sorted(CHECKS)
